@@ -41,3 +41,20 @@ mod verif_bitcoind;
 #[cfg(kani)]
 #[path = "/verif/models/stubs_teos.rs"]
 mod verif_stubs;
+
+// Native twin run of the verification model of the DBM against the real (sqlite) DBM; only with --cfg teos_verif_twin.
+#[cfg(all(test, teos_verif_twin))]
+#[path = "/verif/twin/kani_shim.rs"]
+mod verif_kani_shim;
+#[cfg(all(test, teos_verif_twin))]
+#[path = "/verif/models/collections.rs"]
+mod verif_collections;
+#[cfg(all(test, teos_verif_twin))]
+#[path = "/verif/models/stubs_teos.rs"]
+mod verif_stubs;
+#[cfg(all(test, teos_verif_twin))]
+#[path = "/verif/models/dbm_tower.rs"]
+mod verif_dbm_model;
+#[cfg(all(test, teos_verif_twin))]
+#[path = "/verif/twin/dbm_twin.rs"]
+mod verif_twin;
